@@ -70,7 +70,9 @@ pub struct Out {
     pub stats: BTreeMap<String, u64>,
     distinct: HashSet<u64>,
     pub samples: Vec<String>,
-    pub oracle_failures: Vec<(String, String)>,
+    pub oracle_failures: Vec<(String, String, String)>,
+    /// the request being evaluated (empty outside an evaluation): an oracle failure raised meanwhile is replayed by it
+    pub current: String,
     pub exhaustive: Vec<String>,
 }
 
@@ -94,6 +96,7 @@ impl Out {
             distinct: HashSet::new(),
             samples: vec![],
             oracle_failures: vec![],
+            current: String::new(),
             exhaustive: vec![],
         }
     }
@@ -104,10 +107,12 @@ impl Out {
         debug_assert!(!req.contains('\n'));
         writeln!(self.req, "{req}").unwrap();
         self.req.flush().unwrap();
+        self.current = req.to_string();
     }
     pub fn case(&mut self, req: &str, imp: &str, nontrivial: bool) {
         debug_assert!(!imp.contains('\n'));
         writeln!(self.imp, "{imp}").unwrap();
+        self.current.clear();
         self.n += 1;
         if nontrivial {
             self.distinct.insert(fnv(req));
@@ -127,7 +132,7 @@ impl Out {
     /// The implementation disagrees with an oracle that needs no model (e.g. a round trip).
     pub fn oracle_failure(&mut self, what: &str, input: &str) {
         if self.oracle_failures.len() < 200 {
-            self.oracle_failures.push((what.to_string(), input.to_string()));
+            self.oracle_failures.push((what.to_string(), input.to_string(), self.current.clone()));
         }
         self.stat(&format!("oracle_failure:{what}"));
     }
@@ -151,7 +156,7 @@ impl Out {
             &self
                 .oracle_failures
                 .iter()
-                .map(|(w, i)| format!("{{\"what\": {}, \"input\": {}}}", js(w), js(i)))
+                .map(|(w, i, r)| format!("{{\"what\": {}, \"input\": {}, \"request\": {}}}", js(w), js(i), js(r)))
                 .collect::<Vec<_>>()
                 .join(", "),
         );
